@@ -318,6 +318,43 @@ impl Prop for C19 {
             }
             rate += step;
         }
+        // unit boundaries of the reported uptime: the later TSval sits exactly on (and one tick either side of) a
+        // whole number of days, hours or minutes at every value of the frequency grid
+        let mut grid_values: Vec<u32> = (1..=1500u32).map(|r| grid(r as f64)).collect();
+        grid_values.sort();
+        grid_values.dedup();
+        let days: Vec<u64> = tier.pick(vec![1, 2, 4, 16, 31, 64, 121, 256, 497], (1..=64).chain([100, 121, 127, 128, 242, 255, 256, 300, 365, 484, 497, 512, 1000, 2000, 4000, 20000, 49710].into_iter()).collect());
+        for f in &grid_values {
+            let f = *f as u64;
+            for unit in [86_400u64, 3_600, 60] {
+                for d in &days {
+                    let boundary = d * f * unit;
+                    if boundary > 0xffff_ffff || boundary < 2 * f {
+                        continue;
+                    }
+                    for delta in [-1i64, 0, 1] {
+                        let later = (boundary as i64 + delta) as u64;
+                        if later > 0xffff_ffff {
+                            continue;
+                        }
+                        let c = Endpoint::v4(10, 1, 0, 3, 50001);
+                        let s = Endpoint::v4(10, 1, 0, 4, 80);
+                        let mk = |k: usize, val: u32, gap_ms: u64| {
+                            let h = Host { profile: 0, ts_hz: 1000, ts_base: 0, ttl: 64 };
+                            let mut seg = if k == 0 { tcp::syn(&h, c, s, 1000, 0) } else { tcp::data(&h, c, s, 1001, 1, vec![], 0, 0, pkt::ACK) };
+                            let mut o = if k == 0 { pkt::opt::mss(1460) } else { vec![] };
+                            o.extend(pkt::opt::nop());
+                            o.extend(pkt::opt::nop());
+                            o.extend(pkt::opt::ts(val, 0));
+                            seg.tcp_opts = o;
+                            Pkt { gap_ns: gap_ms * 1_000_000, wall_jump_ms: 0, seg, tsval: Some(val) }
+                        };
+                        // one second apart at exactly f ticks per second
+                        out.push(Scn { kind: Kind::Tcp, framing: Framing::Ethernet, cap: 16, pkts: vec![mk(0, (later - f) as u32, 0), mk(1, later as u32, 1000)] });
+                    }
+                }
+            }
+        }
         out
     }
 
